@@ -19,8 +19,8 @@ EXTENDS VM, JqSem, CodeWF
 Batch == ndJsonDeserialize(IOEnv.VERIF_TRACE)
 MaxSteps == atoi(IOEnv.VERIF_MAXSTEPS)
 
-VARIABLES vm, k, n, fin
-vars == <<vm, k, n, fin>>
+VARIABLES vm, k, n, fin, lp
+vars == <<vm, k, n, fin, lp>>
 
 IsExec(s) == s.status = "run" /\ s.pc <= Len(s.code)
 Rec == Batch[k]
@@ -39,6 +39,7 @@ TraceOK ==
     /\ st.pd = PSDepth(vm.paths)
     /\ st.off = vm.offset
     /\ st.exp = vm.expdepth
+    /\ st.sp = Len(vm.stack.data) /\ st.scp = Len(vm.scopes.data) /\ st.pp = Len(vm.paths.data)
 
 \* compare what Next() returned: model out entries vs recorded [v |-> V] / [e |-> err] / [ctx |-> TRUE]
 RECURSIVE MatchV(_, _)
@@ -73,7 +74,22 @@ RefOK ==
        IN IF r.e.k = "oom" THEN "oom"
           ELSE IF Len(o) = Len(r.o) /\ (\A i \in 1..Len(o) : o[i] = r.o[i]) /\ e.k = r.e.k THEN "ok" ELSE "mismatch"
 
-Verdict(v, extra) == [id |-> Rec.id, v |-> v, steps |-> vm.steps, n |-> n, nout |-> Len(vm.out), wf |-> CodeWF(Rec.code)] @@ extra
+\* C20: footprint at the successive visits of the loop head recorded with the case (Rec.head = [pc, bt])
+HasHead == "head" \in DOMAIN Rec
+AtHead(s) == HasHead /\ IsExec(s) /\ s.pc - 1 = Rec.head.pc /\ s.bt = Rec.head.bt
+FPKeys == {"forks", "stack_log", "stack_phys", "scope_log", "scope_phys", "path_log", "offset"}
+FPMax(a, b) == [x \in FPKeys |-> IF a[x] > b[x] THEN a[x] ELSE b[x]]
+FPLeq(a, b) == \A x \in FPKeys : a[x] <= b[x]
+FPZero == [x \in FPKeys |-> 0]
+\* warm-up: the component-wise maximum over the first 6 visits; flat = no later visit exceeds it
+LpInit == [cnt |-> 0, last |-> FPZero, flat |-> TRUE, first |-> FPZero]
+LpNext(s) == IF ~AtHead(s) THEN lp
+             ELSE [cnt |-> lp.cnt + 1, last |-> FP(s),
+                   flat |-> lp.flat /\ (lp.cnt < 6 \/ FPLeq(FP(s), lp.first)),
+                   first |-> IF lp.cnt < 6 THEN FPMax(lp.first, FP(s)) ELSE lp.first]
+
+Verdict(v, extra) == [id |-> Rec.id, v |-> v, steps |-> vm.steps, n |-> n, nout |-> Len(vm.out), wf |-> CodeWF(Rec.code),
+                      visits |-> lp.cnt, fpflat |-> lp.flat, fpfirst |-> lp.first, fplast |-> lp.last] @@ extra
 Write(v) == ndJsonSerialize(IOEnv.VERIF_OUT \o "." \o ToString(k), <<v>>)
 
 Final ==
@@ -94,10 +110,10 @@ Stop == \/ ~Running(vm) \/ vm.steps >= MaxSteps \/ ~TraceOK
 
 Init == /\ k \in 1..Len(Batch)
         /\ vm = InitVM(Batch[k].code, Batch[k].input, <<>>, Batch[k].cancel)
-        /\ n = 0 /\ fin = FALSE
+        /\ n = 0 /\ fin = FALSE /\ lp = LpInit
 Next == /\ ~fin
-        /\ IF Stop THEN fin' = Write(Final) /\ UNCHANGED <<vm, k, n>>
-           ELSE /\ vm' = Step(vm) /\ n' = (IF IsExec(vm) THEN n + 1 ELSE n) /\ UNCHANGED <<k, fin>>
+        /\ IF Stop THEN fin' = Write(Final) /\ UNCHANGED <<vm, k, n, lp>>
+           ELSE /\ vm' = Step(vm) /\ n' = (IF IsExec(vm) THEN n + 1 ELSE n) /\ lp' = LpNext(vm) /\ UNCHANGED <<k, fin>>
 Spec == Init /\ [][Next]_vars
 
 \* design-level invariants, evaluated in EVERY state TLC visits (they hold on every record of a
